@@ -69,6 +69,16 @@ def rule_fields(facts):
             nm = flow.declared(t) or flow.callee(t)
             stores.setdefault(t.dest.proj[-1][2], []).append(
                 (blk.idx, norm(("call", nm, tuple(tmr.of_operand(a) for a in t.args), blk.idx), "new_props")))
+    # whole-array fills: `self.f.fill(v)` stores [v; N] (N from the field's type)
+    ftys = {f["name"]: f["ty"] for f in adt["variants"][0]["fields"]}
+    for blk in rst.calls():
+        if (flow.callee(blk.term) or "").endswith("core::slice::fill") and len(blk.term.args) == 2:
+            a = pat.strip(tmr.of_operand(blk.term.args[0]))
+            while isinstance(a, tuple) and a and a[0] in ("ref", "cast"):
+                a = a[1] if a[0] == "ref" else a[2]
+            if isinstance(a, tuple) and a and a[0] == "field" and a[1] in ftys and isinstance(ftys[a[1]], dict) and \
+                    ftys[a[1]].get("k") == "array" and pat.has_arg(a, "self"):
+                stores.setdefault(a[1], []).append((blk.idx, ("repeat", norm(tmr.of_operand(blk.term.args[1]), "new_props"), ftys[a[1]]["len"])))
     c = cfg(rst)
     rets = c.returns
     r.sites = len(fields)
